@@ -217,18 +217,14 @@ func compareLU(ck *checker, what string, a M, ref, got luRun, well bool) {
 }
 
 func genLU(g *vlib.G) {
-	N := vlib.Pick(g, 10, 12)
-	nbs := vlib.Pick(g, []int{2, 3, 4}, []int{1, 2, 3, 4})
+	N := vlib.Pick(g, 12, 14)
+	nbs := vlib.Pick(g, []int{1, 2, 3, 4}, []int{1, 2, 3, 4, 5})
 	fams := generalFams(N, true)
 	for m := 0; m <= N; m++ {
 		for n := 0; n <= N; n++ {
 			for _, f := range fams {
-				if len(f.name) > 7 && f.name[:7] == "zerocol" {
-					var j int
-					fmt.Sscanf(f.name[7:], "%d", &j)
-					if j >= n {
-						continue
-					}
+				if j, ok := posFam(f.name); ok && j >= n {
+					continue
 				}
 				for _, nb := range nbs {
 					m, n, f, nb := m, n, f, nb
@@ -356,8 +352,8 @@ func condCheck(ck *checker, name string, rcond float64, anorm, ainvnorm float64)
 }
 
 func genLUSolve(g *vlib.G) {
-	N := vlib.Pick(g, 10, 12)
-	nbs := vlib.Pick(g, []int{2, 3, 4}, []int{1, 2, 3, 4})
+	N := vlib.Pick(g, 12, 14)
+	nbs := vlib.Pick(g, []int{1, 2, 3, 4}, []int{1, 2, 3, 4, 5})
 	fams := generalFams(N, false)
 	for n := 0; n <= N; n++ {
 		for _, f := range fams {
@@ -484,8 +480,8 @@ func genLUSolve(g *vlib.G) {
 								ck.failf("NaN in inverse")
 								continue
 							}
-							res := norm1(sub(mul(a, inv), eye(n)))
-							ck.ratio("Dgetri |A*inv-I|/(n eps |A||inv|)", res/(float64(n)*eps*norm1(a)*norm1(inv)))
+							res := norm1(sub(mul(inv, a), eye(n))) // the left residual: the one Dgetri's method (X*L = inv(U)) bounds, as in LAPACK's dget03
+							ck.ratio("Dgetri |inv*A-I|/(n eps |A||inv|)", res/(float64(n)*eps*norm1(a)*norm1(inv)))
 						}
 						if k == 0 {
 							refInv = inv
